@@ -114,9 +114,9 @@ func runC17(c *harness.Case) {
 		{key: P + "/events/ns/x1", isEvent: true},
 		{key: P + "/events/ns/x2", isEvent: true},
 		{key: P + "/events/default/y", isEvent: true},
-		{key: P + "/pods/events/p1"},          // a pod in a namespace called "events"
-		{key: P + "/eventsx/e"},               // resource whose name merely starts with "events"
-		{key: P + "/cm/ns/events/"},           // trailing segment
+		{key: P + "/pods/events/p1"},           // a pod in a namespace called "events"
+		{key: P + "/eventsx/e"},                // resource whose name merely starts with "events"
+		{key: P + "/cm/ns/events/"},            // trailing segment
 		{key: P + "/configmaps/kube/events/c"}, // nested
 		{key: P + "/pods/ns/plain"},
 		{key: "/other/events/z"}, // outside the prefix
@@ -129,7 +129,9 @@ func runC17(c *harness.Case) {
 	}
 	m := harness.NewModel()
 	var hist []string
-	wit := func() interface{} { return map[string]interface{}{"kind": kindName, "ttl": effTTL.String(), "history": hist} }
+	wit := func() interface{} {
+		return map[string]interface{}{"kind": kindName, "ttl": effTTL.String(), "history": hist}
+	}
 	clientEvents := 0
 	write := func(k *c17Key, op harness.SeqOp) bool {
 		begin := time.Now()
